@@ -11,7 +11,7 @@ use std::cell::RefCell;
 use std::rc::Rc;
 
 use flipdot::Sign;
-use flipdot_core::{Address, Message, Operation, SignBus, SignType, State};
+use flipdot_core::{Address, Frame, Message, Operation, SignBus, SignType, State};
 
 use crate::bus::{BusResult, SimBusError};
 use crate::core::{stable_hash, Cx, Scenario, Tier, Violation};
@@ -109,7 +109,19 @@ impl AdvBus {
             }
             return self.model.good_reply();
         }
-        let foreign = |cx: &Cx| gens::other_address(cx, &[own]);
+        // a foreign address: arbitrary or a near miss of the own one mostly; now and then a number that
+        // also occurs elsewhere in this conversation (the chunk count, an offset, the operation's wire code)
+        let total = self.model.chunk_total() as u16;
+        let foreign = |cx: &Cx| {
+            if cx.chance(1, 5) {
+                let a = Address(*cx.pick(&[total, total.wrapping_mul(16), 16, 1, 0xA1, 0xA2, 0xA6, 0xA7, 0xA9, 0xAA]));
+                if a != own {
+                    cx.probe("foreign_address_equal_to_a_number_of_the_conversation");
+                    return a;
+                }
+            }
+            gens::other_address(cx, &[own])
+        };
         let good_state = match self.model.good_reply() {
             BusReply::Msg(Some(Message::ReportState(_, s))) => Some(s),
             _ => None,
@@ -146,7 +158,33 @@ impl AdvBus {
                     _ => Message::PixelsComplete(a),
                 })
             }
-            8 => Some(Message::Unknown(gens::unknown_frame(cx))),
+            8 => {
+                if cx.chance(1, 2) {
+                    // a near miss of a frame that belongs here: the reply that would be accepted, or the
+                    // request itself, with another message type, an extra byte or a byte missing
+                    let base = match (self.model.good_reply(), &self.last_sent) {
+                        (BusReply::Msg(Some(m)), _) if cx.chance(2, 3) => Some(m),
+                        (_, Some(m)) => Some(m.clone()),
+                        _ => None,
+                    };
+                    if let Some(m) = base {
+                        cx.probe("near_miss_frame_as_reply");
+                        let f = Frame::from(m);
+                        let mut d = f.data().to_vec();
+                        let mut ty = f.message_type().0;
+                        match cx.draw(3) {
+                            0 => ty = cx.draw(8) as u8,
+                            1 => d.push(cx.draw(256) as u8),
+                            _ => {
+                                d.pop();
+                            }
+                        }
+                        let g = Frame::new(f.address(), flipdot_core::MsgType(ty), gens::data(d));
+                        return BusReply::Msg(Some(to_static(&Message::from(g))));
+                    }
+                }
+                Some(Message::Unknown(gens::unknown_frame(cx)))
+            }
             9 => {
                 // failure report (drives the retry logic)
                 let s = if cx.chance(1, 2) { State::ConfigFailed } else { State::PixelsFailed };
